@@ -221,6 +221,21 @@ Fixpoint run_phases_rm (rms : list (list tid)) (fuel : nat) (st : store) (p : jp
       else (st1, [ex])
   end.
 
+(* ------------------------------------------------------------------ `jug invalidate`
+   InvalidateCommand.run / the shell's invalidate(): the loaded tasks that are selected (by name on the command
+   line, a task object in the shell) and every loaded task that has one of those under its arguments - directly
+   or through other loaded tasks; alltasks is in creation order, arguments are created before their users - lose
+   their results.  A collapsed compound is [probe h cargs]: its arguments are those of the call. *)
+Definition mem_tid (t : tid) (l : list tid) : bool := existsb (Pos.eqb t) l.
+
+Definition inv_step (sel : tid -> bool) (bad : list tid) (t : task) : list tid :=
+  if sel (tid_of t) || existsb (fun d => mem_tid d bad) (atids_list (targs t)) then tid_of t :: bad else bad.
+
+Definition invalid_ids (sel : tid -> bool) (ts : list task) : list tid := fold_left (inv_step sel) ts [].
+
+Definition invalidate (sel : tid -> bool) (st : store) (p : jprog) : store :=
+  remove_keys (invalid_ids sel (l_tasks (load st p))) st.
+
 (* ------------------------------------------------------------------ `jug sleep-until`
    SleepUntilCommand.run (jug/subcommands/check.py): load; wait until every loaded task has a result
    (polling, one sleep per poll that fails); if the namespace has __jug__hasbarrier__ load again and
